@@ -97,12 +97,11 @@ def run(ctx):
     for cv, bb in F.callers().get(eq.key, []):
         cs = [c for c in cv.calls() if c.bb == bb][0]
         q, pos, what = show(cs.arg(2)), show(cs.arg(3)), show(cs.arg(1))
-        if cs.arg(1)[0] == 'proj' and cs.arg(1)[1][0] == 'phi':
-            for dbb, de in cv.phi_defs(cs.arg(1)[1][1]):
-                if de[0] == 'agg' and de[1] == '(tuple)':
-                    d = dict(de[3])
-                    g = [x for x in guard_strs(cv, dbb) if re.match(r'^[\w.]*event is \w+$', x)]
-                    rows.append((short(cv.path), g[0].split(' is ')[1] if g else '?', show(d['1']), show(d['2']), cs.loc()))
+        if short(cv.path) == 'ProtocolState::handle_user_event':
+            # the user-event rows come from the finite-domain table (independent of how the handler is shaped)
+            from . import shared
+            for k_, row_ in sorted((shared.user_event_table(F, cv) or {}).items()):
+                rows.append((short(cv.path), k_, '|'.join(sorted(row_['queue'])), '|'.join(sorted(row_['position'])), cs.loc()))
         else:
             m_ = re.search(r'MqttPacket::(\w+)\{', what)
             kind = m_.group(1) if m_ else ('PubrelOf:' + what[:30] if 'pending_publish_operations' in what else what[:30])
